@@ -16,7 +16,7 @@ CLAIM = {
             "maybe_finish_decoding_block and Ok of validate_block and cannot reach a refusal exit (failure "
             "atomicity); (R13.2) ChainTracker::validate_block succeeds only if prev_blockhash equals the previous "
             "header's hash, validate_pow returned Ok, validate_retarget returned Ok on interval boundaries (mainnet), "
-            "bits are unchanged otherwise, and the proof validator returned Ok unless the all-zero filter-header test "
+            "bits are unchanged otherwise, (R13.5) the tracker is given the configured trusted oracle set on both construction paths (fresh node and restart), and the proof validator returned Ok unless the all-zero filter-header test "
             "was taken; validate_retarget refuses the three out-of-range scenarios; (R13.3) validator::validate_block "
             "refuses every proof.verify error and key_matches < ceil(n/2), with key_matches counted over the trusted "
             "oracle keys. Does not decide PoW/retarget arithmetic inside rust-bitcoin nor TXOO proof semantics.",
@@ -41,6 +41,7 @@ def run(ctx):
     r132(ctx)
     r133(ctx)
     r134(ctx)
+    r135(ctx)
 
 
 def r131(ctx):
@@ -269,3 +270,48 @@ def r134(ctx):
             ctx.ob("R13.4", bool(dife) and not bad, f"{b.name}/prev-{name.replace(' ', '-')}/mismatch-refused",
                    f"remove_block can succeed although the supplied previous {name} differs from the remembered one",
                    where=f"{b.file}:{line}", sample="!= => refused")
+
+
+def r135(ctx):
+    ctx.rule("R13.5", "the tracker validates proofs against the configured trusted oracle set on both construction paths: "
+                      "Node::new hands services.trusted_oracle_pubkeys to the tracker constructor, and "
+                      "Node::new_from_persistence installs it into the restored tracker before the node is built")
+    p = ctx.prog
+    NODE = LS + "node::Node"
+    # restart path
+    b = p.fn(f"{NODE}::new_from_persistence")
+    fv = fnview(ctx, b)
+    ws = [(bi, idx, obj) for (bb, bi, idx, obj) in R.field_writes(p, "ChainTracker<L>", "trusted_oracle_pubkeys") if bb is b] or \
+         [(bi, idx, obj) for (bb, bi, idx, obj) in R.field_writes(p, "ChainTracker", "trusted_oracle_pubkeys") if bb is b]
+    if not ws:
+        for bb, bi, idx, obj in R.field_writes(p, "", "trusted_oracle_pubkeys"):
+            if bb is b:
+                ws.append((bi, idx, obj))
+    ctx.ob("R13.5", len(ws) >= 1, f"{b.name}/installs-oracles",
+           "the tracker restored at start-up is not given the trusted oracle set: it validates blocks against an empty set "
+           "(required majority 0), so any attestation is accepted after a restart", where=f"{b.file}:{b.line}",
+           sample="tracker.trusted_oracle_pubkeys <- services.trusted_oracle_pubkeys")
+    for bi, idx, obj in ws:
+        e = fv._call_expr(obj, 0) if idx == "T" else (fv.expr(obj.rv.ops[0]) if obj.rv.ops else ("opaque", "?"))
+        ok = any(x[0] == "field" and x[3] == "trusted_oracle_pubkeys" and x[2].endswith("NodeServices") for x in subexprs(e))
+        ctx.ob("R13.5", ok, f"{b.name}/oracles-source", f"the restored tracker's oracle set is `{render(e)[:100]}` (expected "
+               "services.trusted_oracle_pubkeys)", where=f"{b.file}:{obj.line}", sample="services.trusted_oracle_pubkeys")
+    wb = {bi for bi, _, _ in ws}
+    for bi, ln, c in R.call_blocks(fv, lambda n: n == f"{NODE}::new_full"):
+        ctx.ob("R13.5", bool(wb) and bi not in fv.reach(0, cut_nodes=wb), f"{b.name}/oracles-before-node",
+               "new_from_persistence can build the node with a tracker that has no trusted oracle set", where=f"{b.file}:{ln}",
+               sample="new_full dominated by the oracle-set assignment")
+    # fresh path
+    nb = p.fn(f"{NODE}::new")
+    nv = fnview(ctx, nb)
+    n = 0
+    for bi, c in nb.calls():
+        nm = c.callee.name if c.callee else ""
+        if "chain::tracker::ChainTracker" in nm and c.callee is not None and c.callee.params and "trusted_oracle_pubkeys" in c.callee.params:
+            n += 1
+            a = nv.expr(c.args[c.callee.params.index("trusted_oracle_pubkeys")])
+            ok = any(x[0] == "field" and x[3] == "trusted_oracle_pubkeys" and x[2].endswith("NodeServices") for x in subexprs(a))
+            ctx.ob("R13.5", ok, f"{nb.name}/oracles-source/{nm.rsplit('::', 1)[-1]}",
+                   f"Node::new builds the tracker with oracle set `{render(a)[:100]}`", where=f"{nb.file}:{c.line}",
+                   sample="services.trusted_oracle_pubkeys")
+    ctx.floor("R13.5", "tracker constructor calls in Node::new", n, 1)
